@@ -234,9 +234,9 @@ theorem remapHam_some (tr : Nat → Nat) (m : Dict) (ts : List Term) (h : TotalO
     rw [List.map_map]; rfl
   rw [h1, h2, h3, gather_terms, gather_argsortIds]
 
-/-- `KeyError` exactly when a mapping is given that misses an identifier -/
+/-- an error (`ValueError`) exactly when a mapping is given that misses an identifier -/
 theorem remapHam_error_iff (tr : Nat → Nat) (mapping : Option Dict) (ts : List Term) (e : String) :
-    remapHam tr mapping ts = .error e ↔ e = "KeyError" ∧ ¬ TotalOn mapping ts := by
+    remapHam tr mapping ts = .error e ↔ e = "ValueError" ∧ ¬ TotalOn mapping ts := by
   cases mapping with
   | none => simp [remapHam_none, totalOn_none]
   | some m =>
@@ -276,7 +276,7 @@ theorem remapHam_ok_total {tr : Nat → Nat} {mapping : Option Dict} {ts q : Lis
     (h : remapHam tr mapping ts = .ok q) : TotalOn mapping ts := by
   by_cases ht : TotalOn mapping ts
   · exact ht
-  · have := (remapHam_error_iff tr mapping ts "KeyError").mpr ⟨rfl, ht⟩
+  · have := (remapHam_error_iff tr mapping ts "ValueError").mpr ⟨rfl, ht⟩
     rw [this] at h
     cases h
 
@@ -462,11 +462,11 @@ theorem remapDef_eq_ok_iff (tr : Nat → Nat) (mapping : Option Dict) (p q : TPu
           simp only [h1, h2, Bool.false_eq_true, if_false, Except.ok.injEq, hu1, hu2, and_true]
           exact eq_comm
 
-/-- `KeyError` when the mapping misses an identifier; otherwise `ValueError` when mapped
-identifiers coincide; nothing else -/
+/-- `ValueError` when the mapping misses an identifier (first cause); otherwise `ValueError` when
+mapped identifiers coincide (second cause); nothing else -/
 theorem remapDef_error_iff (tr : Nat → Nat) (mapping : Option Dict) (p : TPulse) (e : String) :
     remapDef tr mapping p = .error e ↔
-      (e = "KeyError" ∧ ¬ (TotalOn mapping p.data.cTerms ∧ TotalOn mapping p.data.nTerms)) ∨
+      (e = "ValueError" ∧ ¬ (TotalOn mapping p.data.cTerms ∧ TotalOn mapping p.data.nTerms)) ∨
       (e = "ValueError" ∧ (TotalOn mapping p.data.cTerms ∧ TotalOn mapping p.data.nTerms) ∧
         ¬ (MappedUnique mapping p.data.cTerms ∧ MappedUnique mapping p.data.nTerms)) := by
   unfold remapDef
@@ -854,7 +854,7 @@ theorem placedTerms_ok (ts : List Term) (pl : Placed) (h : MappingTotal pl.mappi
   rw [h1, h2, h3, zip3With_map]
 
 theorem placedTerms_err (ts : List Term) (pl : Placed) (h : ¬ MappingTotal pl.mapping ts) :
-    placedTerms ts pl = .error "KeyError" := by
+    placedTerms ts pl = .error "ValueError" := by
   unfold placedTerms mapIdentifiers
   have ht : ¬ TotalOn (some (defaultExtendMapping (ts.map (·.id)) pl.mapping pl.qubits)) ts :=
     fun ht => h ((totalOn_default ts pl.mapping pl.qubits).mp ht)
@@ -889,7 +889,7 @@ theorem collectTerms_ok (pls : List Placed) (h : AllMappingsTotal pls) :
     simp [collectedC, collectedN]
 
 theorem collectTerms_err (pls : List Placed) (h : ¬ AllMappingsTotal pls) :
-    collectTerms pls = .error "KeyError" := by
+    collectTerms pls = .error "ValueError" := by
   induction pls with
   | nil => exact absurd (fun _ hx => by cases hx) h
   | cons pl pls ih =>
@@ -1452,7 +1452,8 @@ def FrontReject (entries : List Entry) (Ng : Option Nat) : Prop :=
 def ShortcutTaken (entries : List Entry) (N : Nat) : Prop :=
   ∃ e, entries = [e] ∧ N = if e.isSingle then 1 else e.qubits.length
 
-/-- an entry's identifier mapping misses a control or noise identifier of its pulse (`KeyError`) -/
+/-- an entry's identifier mapping misses a control or noise identifier of its pulse
+(`ValueError`, raised by `_map_identifiers` inside the two loops) -/
 def MappingMisses (entries : List Entry) : Prop :=
   ∃ e ∈ entries, ∃ m, e.mapping = some m ∧
     ∃ t ∈ e.pulse.data.cTerms ++ e.pulse.data.nTerms, m.lookup t.id = none
@@ -1736,6 +1737,155 @@ theorem noise_ids_nodup (h : extendDef entries Ng add = .ok q) (hns : q.shortcut
         exact ⟨t, ht, by simpa using ha⟩
       rw [this] at hr4
       cases hr4
+
+
+/-- the error cases of `extendDef` in the order of the source (used by `C06Def.extendDef_errors_iff`) -/
+theorem extendDef_error_cases (entries : List Entry) (Ng : Option Nat) (add : Option Additional)
+    (err : String) :
+    extendDef entries Ng add = .error err ↔
+      (err = "ValueError" ∧ FrontReject entries Ng) ∨
+      (¬ FrontReject entries Ng ∧ ¬ ShortcutTaken entries (extendN entries Ng) ∧
+        ((err = "ValueError" ∧ MappingMisses entries) ∨
+         (err = "ValueError" ∧ ¬ MappingMisses entries ∧
+           (DuplicateIds entries ∨ AdditionalReject entries add)))) := by
+  have hfront := front_iff entries Ng
+  have hshort := shortcutOf_iff entries (extendN entries Ng)
+  have hmap := allMappingsTotal_iff entries
+  rw [extendDef_eq, frontChecks_eq]
+  by_cases hfb : (entries.isEmpty || entries.any (·.loopFails) || frontRejected entries Ng) = true
+  · have hFR := hfront.mp hfb
+    have hgoal : ∀ R : Except String XPulse, R = Except.error "ValueError" →
+        (R = .error err ↔
+          (err = "ValueError" ∧ FrontReject entries Ng) ∨
+          (¬ FrontReject entries Ng ∧ ¬ ShortcutTaken entries (extendN entries Ng) ∧
+            ((err = "ValueError" ∧ MappingMisses entries) ∨
+             (err = "ValueError" ∧ ¬ MappingMisses entries ∧
+               (DuplicateIds entries ∨ AdditionalReject entries add))))) := by
+      rintro R rfl
+      constructor
+      · intro h
+        injection h with h
+        exact Or.inl ⟨h.symm, hFR⟩
+      · rintro (⟨rfl, _⟩ | ⟨hn, _⟩)
+        · rfl
+        · exact absurd hFR hn
+    by_cases he : entries.isEmpty = true
+    · exact hgoal _ (by simp only [he, if_true])
+    · by_cases hl : entries.any (·.loopFails) = true
+      · exact hgoal _ (by simp only [he, hl, if_true, Bool.false_eq_true, if_false])
+      · have hf : frontRejected entries Ng = true := by
+          simp only [Bool.or_eq_true] at hfb
+          rcases hfb with (h | h) | h
+          · exact absurd h he
+          · exact absurd h hl
+          · exact h
+        exact hgoal _ (by simp only [he, hl, hf, if_true, Bool.false_eq_true, if_false])
+  · have hNFR : ¬ FrontReject entries Ng := fun h => hfb (hfront.mpr h)
+    simp only [Bool.or_eq_true, not_or, Bool.not_eq_true] at hfb
+    obtain ⟨⟨he, hl⟩, hf⟩ := hfb
+    simp only [he, hl, hf, Bool.false_eq_true, if_false]
+    cases hsc : shortcutOf (placedList entries) (extendN entries Ng) with
+    | some pl =>
+      have hST : ShortcutTaken entries (extendN entries Ng) := hshort.mp (by rw [hsc]; rfl)
+      simp only
+      constructor
+      · intro h; cases h
+      · rintro (⟨_, h⟩ | ⟨_, h, _⟩)
+        · exact absurd h hNFR
+        · exact absurd hST h
+    | none =>
+      have hNST : ¬ ShortcutTaken entries (extendN entries Ng) := fun h => by
+        have := hshort.mpr h
+        rw [hsc] at this
+        cases this
+      simp only
+      by_cases hm : AllMappingsTotal (ordered entries)
+      · have hNM : ¬ MappingMisses entries := hmap.mp hm
+        rw [collectTerms_ok _ hm]
+        simp only
+        by_cases hdup : hasDup ((collectedC (ordered entries)).map (·.id)) = true ∨
+            hasDup ((collectedN (ordered entries)).map (·.id)) = true
+        · have hD : DuplicateIds entries := by
+            rcases hdup with hd | hd
+            · exact Or.inl fun hh =>
+                (hasDup_iff _).mp hd ((collectedC_ids_nodup_iff entries).mpr hh)
+            · exact Or.inr fun hh =>
+                (hasDup_iff _).mp hd ((collectedN_ids_nodup_iff entries).mpr hh)
+          have hiff : ((Except.error "ValueError" : Except String XPulse) = .error err) ↔
+              ((err = "ValueError" ∧ FrontReject entries Ng) ∨
+               (¬ FrontReject entries Ng ∧ ¬ ShortcutTaken entries (extendN entries Ng) ∧
+                 ((err = "ValueError" ∧ MappingMisses entries) ∨
+                  (err = "ValueError" ∧ ¬ MappingMisses entries ∧
+                    (DuplicateIds entries ∨ AdditionalReject entries add))))) := by
+            constructor
+            · intro h
+              injection h with h
+              exact Or.inr ⟨hNFR, hNST, Or.inr ⟨h.symm, hNM, Or.inl hD⟩⟩
+            · rintro (⟨_, h⟩ | ⟨_, _, ⟨_, h⟩ | ⟨rfl, _, _⟩⟩)
+              · exact absurd h hNFR
+              · exact absurd h hNM
+              · rfl
+          rcases hdup with hd | hd
+          · simp only [hd, if_true]
+            exact hiff
+          · by_cases hd' : hasDup ((collectedC (ordered entries)).map (·.id)) = true
+            · simp only [hd', if_true]
+              exact hiff
+            · simp only [hd', hd, if_true, Bool.false_eq_true, if_false]
+              exact hiff
+        · simp only [not_or, Bool.not_eq_true] at hdup
+          have hND : ¬ DuplicateIds entries := by
+            rintro (hd | hd)
+            · have := (hasDup_iff _).mpr fun hh => hd ((collectedC_ids_nodup_iff entries).mp hh)
+              rw [hdup.1] at this
+              cases this
+            · have := (hasDup_iff _).mpr fun hh => hd ((collectedN_ids_nodup_iff entries).mp hh)
+              rw [hdup.2] at this
+              cases this
+          simp only [hdup.1, hdup.2, Bool.false_eq_true, if_false]
+          cases add with
+          | none =>
+            rw [addAdditional_none]
+            simp only
+            constructor
+            · intro h; cases h
+            · rintro (⟨_, h⟩ | ⟨_, _, ⟨_, h⟩ | ⟨_, _, h | ⟨H, hH, _⟩⟩⟩)
+              · exact absurd h hNFR
+              · exact absurd h hNM
+              · exact absurd h hND
+              · cases hH
+          | some H =>
+            rw [addAdditional_some]
+            have hrej := addRejected_iff entries H
+            by_cases hr : addRejected (collectedN (ordered entries)) (nDtOf entries) H = true
+            · simp only [hr, if_true]
+              constructor
+              · intro h
+                injection h with h
+                exact Or.inr ⟨hNFR, hNST, Or.inr ⟨h.symm, hNM, Or.inr (hrej.mp hr)⟩⟩
+              · rintro (⟨_, h⟩ | ⟨_, _, ⟨_, h⟩ | ⟨rfl, _, _⟩⟩)
+                · exact absurd h hNFR
+                · exact absurd h hNM
+                · rfl
+            · simp only [hr, Bool.false_eq_true, if_false]
+              constructor
+              · intro h; cases h
+              · rintro (⟨_, h⟩ | ⟨_, _, ⟨_, h⟩ | ⟨_, _, h | h⟩⟩)
+                · exact absurd h hNFR
+                · exact absurd h hNM
+                · exact absurd h hND
+                · exact absurd (hrej.mpr h) hr
+      · have hMM : MappingMisses entries := Classical.not_not.mp fun h => hm (hmap.mpr h)
+        rw [collectTerms_err _ hm]
+        simp only
+        constructor
+        · intro h
+          injection h with h
+          exact Or.inr ⟨hNFR, hNST, Or.inl ⟨h.symm, hMM⟩⟩
+        · rintro (⟨_, h⟩ | ⟨_, _, ⟨rfl, _⟩ | ⟨_, h, _⟩⟩)
+          · exact absurd h hNFR
+          · rfl
+          · exact absurd hMM h
 
 
 end Extend
